@@ -210,6 +210,8 @@ class Particle(Structure):
             del lc["self"]
             del lc["variation"]
             del lc["variation2"]
+            del lc["binarydata"] # locals that are not arguments of __init__
+            del lc["simp"]
             if particle is None:
                 particle = Particle(**lc)
             # First or second order?
